@@ -101,8 +101,8 @@ def cases(tier, seed, info):
                                   plugins=rng.random() < .7))
         out.append(dict(kind='history', origin='random', seed=seed * 17 + k + 777, items=items))
     info['random_histories'] = m
-    for k in range(6 if tier == 'quick' else 120):
-        out.append(dict(kind='dir', seed=seed * 101 + k, n=rng.randint(3, 9)))
+    for k in range(12 if tier == 'quick' else 180):
+        out.append(dict(kind='dir', seed=seed * 101 + k, n=rng.randint(3, 9), opt=k + seed))
     return out
 
 
@@ -335,9 +335,21 @@ def _dir(case):
     seams.clear_plugin_caches(unload=True)
     alphabet = [dict(cache=c, mod=mm, beh=b, plugins=True) for c in ('ud', 'src', 'co', 'osrc') for mm in ('m1', 'm2') for b in BEHSEL]
     files = []
+    OPTS = [['-E'], ['-S', 'Unrecoverable', 'Predictive', 'Critical'], ['-E'], ['-H', '-S', 'Recovered', 'Diagnostic'],
+            ['-N', '-O'], ['-s', '-H'], [], ['-t', '-S', 'Informational'], ['-O', '-S', 'Predictive', 'Recovered']]
+    opts = OPTS[case.get('opt', 0) % len(OPTS)]
+    head = [o for o in opts if o in ('-E', '-H', '-N', '-O', '-s', '-t')]
+    tail = opts[len(head):] if '-S' in opts else []
     for k in range(case['n']):
         it = rng.choice(alphabet) if k % 2 else dict(cache='other', mod=rng.choice(['e500', 'plain', 'lp', 'regmsg', 'ilog', 'longkeys', 'longkeys']), beh='-')
         data, sent = realise(rng, it, k)
+        if opts != ['-E'] and len(data) > 72:
+            # severities and action flags of every kind: what the selection options make of ONE log does not depend
+            # on the logs handled before it either
+            b = bytearray(data)
+            b[58] = rng.choice([0x40, 0x20, 0x10, 0x50, 0x60, 0x70, 0x00, 0x51, 0x21])
+            b[66:68] = bytes(rng.choice([[0x20, 0x00], [0x60, 0x00], [0x00, 0x00], [0x80, 0x00], [0xA8, 0x00]]))
+            data = bytes(b)
         eid = sent[0]
         name = '%02d_%s' % (k, eid)
         seams.write_file(os.path.join(d, name), data)
@@ -361,21 +373,22 @@ def _dir(case):
         except (ValueError, KeyError, TypeError):
             return None
         return res
-    a = by_eid(seams.run_cli(['-p', d, '-a', '-E'])['out'])
-    ar = by_eid(seams.run_cli(['-p', d, '-a', '-E', '-r'])['out'])
+    a = by_eid(seams.run_cli(['-p', d, '-a'] + head + tail)['out'])
+    ar = by_eid(seams.run_cli(['-p', d, '-a', '-r'] + head + tail)['out'])
     docs, complete = [], a is not None and ar is not None
     for name, eid in files:
         seams.clear_plugin_caches(unload=True)
-        one = seams.run_cli(['-f', os.path.join(d, name), '-E'])['out']
+        one = seams.run_cli(['-f', os.path.join(d, name)] + head + tail)['out']
         try:
             import hashlib
             f = project.digest(json.loads(one)) + '/' + hashlib.sha1(one.strip().encode('utf-8', 'surrogatepass')).hexdigest()[:12]
         except ValueError:
             f = 'no document'
         key = '0x' + eid
-        docs.append(dict(a=(a or {}).get(key, 'missing'), ar=(ar or {}).get(key, 'missing'), f=f))
+        docs.append(dict(a=(a or {}).get(key, 'no document'), ar=(ar or {}).get(key, 'no document'), f=f))
     shutil.rmtree(d, ignore_errors=True)
-    return [dict(kind='dir', shape_ok=True, docs=docs, complete=complete and len(a) == len(files))]
+    return [dict(kind='dir', shape_ok=True, docs=docs, opts=opts,
+                 complete=complete and (len(a) == len(files) or opts != ['-E']))]
 
 
 def run_case(case):
